@@ -38,6 +38,9 @@ pub struct WireCase {
     pub seg_name: String,
     pub pending: Vec<u8>,
     pub flavour: Flavour,
+    /// drive with a TRACE-level tracing subscriber installed
+    #[serde(default)]
+    pub tracing: bool,
 }
 
 pub struct Material {
@@ -86,6 +89,10 @@ fn first_line_end(stream: &[u8]) -> Option<usize> {
 }
 
 fn run_case(case: &WireCase, m: &Material, extra: usize) -> Outcome {
+    crate::tracesub::with_tracing(case.tracing, || run_case_inner(case, m, extra))
+}
+
+fn run_case_inner(case: &WireCase, m: &Material, extra: usize) -> Outcome {
     drive(&DriveInput {
         stream: &m.stream,
         barrier: m.barrier,
@@ -620,6 +627,8 @@ impl Check for C03 {
         known: &KnownFindings,
     ) {
         let mut rng = Rng::new(mix(seed, "C03", index));
+        // half of the run indexes drive the connection with TRACE logging switched on
+        let tracing_on = rng.chance(1, 2);
         let class = gen::gen_class_with_huge(&mut rng);
         let greeting = if rng.chance(1, 8) {
             gen::valid_greeting(&gen::gen_version(&mut rng))
@@ -677,6 +686,9 @@ impl Check for C03 {
             }
         }
         for (seg, name) in segs {
+            if class == SizeClass::Huge && !gen::coarse_only(&name) {
+                continue;
+            }
             for fl in all_flavours() {
                 let case = WireCase {
                     source: Source::Session {
@@ -693,6 +705,7 @@ impl Check for C03 {
                         vec![0]
                     },
                     flavour: fl,
+                    tracing: tracing_on,
                 };
                 ctx.about_to_eval(&case);
                 let ev = eval_c03(&case);
@@ -892,9 +905,16 @@ impl Check for C10 {
         known: &KnownFindings,
     ) {
         let mut rng = Rng::new(mix(seed, "C10", index));
+        // half of the run indexes drive the connection with TRACE logging switched on
+        let tracing_on = rng.chance(1, 2);
         // quick: small streams, every cut; thorough: also large streams with sub-sampled cuts
         let class = match tier {
-            Tier::Quick => *rng.pick(&[SizeClass::Tiny, SizeClass::Tiny, SizeClass::Small]),
+            Tier::Quick => *rng.pick_weighted(&[
+                (10, SizeClass::Tiny),
+                (5, SizeClass::Small),
+                (1, SizeClass::Medium),
+                (1, SizeClass::Large),
+            ]),
             Tier::Thorough => gen::gen_class(&mut rng),
         };
         let greeting = if rng.chance(1, 6) {
@@ -970,6 +990,7 @@ impl Check for C10 {
                             vec![0]
                         },
                         flavour: fl,
+                        tracing: tracing_on,
                     };
                     ctx.about_to_eval(&case);
                     let ev = eval_c10(&case);
@@ -1146,6 +1167,8 @@ impl Check for C02 {
         known: &KnownFindings,
     ) {
         let mut rng = Rng::new(mix(seed, "C02", index));
+        // half of the run indexes drive the connection with TRACE logging switched on
+        let tracing_on = rng.chance(1, 2);
         let class = gen::gen_class_with_huge(&mut rng);
         let greeting = gen::default_greeting();
         // stream kinds: well-formed, truncated, corrupted, raw soup
@@ -1202,6 +1225,7 @@ impl Check for C02 {
             seg_name: "whole".into(),
             pending: vec![0],
             flavour: Flavour::Blocking,
+            tracing: tracing_on,
         };
         ctx.about_to_eval(&base);
         let m = base.materialize();
@@ -1238,6 +1262,9 @@ impl Check for C02 {
             }
         }
         for (seg, name) in segs {
+            if class == SizeClass::Huge && !gen::coarse_only(&name) {
+                continue;
+            }
             for fl in all_flavours() {
                 if fl == Flavour::Blocking && name == "whole" {
                     continue; // the reference itself
@@ -1458,6 +1485,8 @@ impl Check for C09 {
         known: &KnownFindings,
     ) {
         let mut rng = Rng::new(mix(seed, "C09", index));
+        // half of the run indexes drive the connection with TRACE logging switched on
+        let tracing_on = rng.chance(1, 2);
         let greeting = gen::default_greeting();
         let corpus = gen::edge_corpus();
         let mut sweep_all_offsets: Option<(Vec<AbsResp>, usize)> = None;
@@ -1553,6 +1582,7 @@ impl Check for C09 {
                 seg_name: "whole".into(),
                 pending: vec![0],
                 flavour: Flavour::Blocking,
+                tracing: false,
             };
             let m = probe.materialize();
             let glen = m.barrier.unwrap_or(m.stream.len());
@@ -1575,6 +1605,7 @@ impl Check for C09 {
                             vec![0]
                         },
                         flavour: fl,
+                        tracing: tracing_on,
                     };
                     ctx.about_to_eval(&case);
                     let ev = eval_c09(&case);
@@ -1668,7 +1699,11 @@ impl Check for C09 {
 // C18 (a): greeting, both flavours
 
 pub fn gen_greeting_stream(rng: &mut Rng) -> (Vec<u8>, &'static str) {
-    let version = gen::gen_version(rng);
+    let version = if rng.chance(1, 300) {
+        gen::gen_version_giant(rng)
+    } else {
+        gen::gen_version(rng)
+    };
     match rng.below(12) {
         0..=4 => (gen::valid_greeting(&version), "valid"),
         5 => {
@@ -1769,6 +1804,7 @@ pub fn run_greeting_index<C: Clone + serde::Serialize>(
     known: &KnownFindings,
     wrap: impl Fn(WireCase) -> C,
 ) {
+    let tracing_on = rng.chance(1, 2);
     let (stream, kind) = gen_greeting_stream(rng);
     ctx.counters.bump(&format!("greeting.{}", kind));
     if stream.len() > 4096 {
@@ -1782,6 +1818,19 @@ pub fn run_greeting_index<C: Clone + serde::Serialize>(
         (gen::seg_bytewise(), "bytewise".into()),
         (gen::seg_pattern(rng), "pattern".into()),
     ];
+    if stream.len() > 32 * 1024 {
+        // connect re-parses the whole line on every read: only coarse segmentations
+        ctx.counters.bump("greeting_longer_than_32k");
+        segs = vec![
+            (gen::seg_whole(), "whole".into()),
+            (vec![16384], "16k".into()),
+            (vec![65536, 1460], "64k_then_mtu".into()),
+        ];
+        if stream.len() > 256 * 1024 {
+            segs.truncate(2);
+            segs[1] = (vec![262_144], "256k".into());
+        }
+    }
     if stream.len() <= 64 {
         for k in 1..stream.len() {
             segs.push((gen::seg_split2(k), "split2".into()));
@@ -1790,7 +1839,9 @@ pub fn run_greeting_index<C: Clone + serde::Serialize>(
         for _ in 0..6 {
             segs.push((gen::seg_split2(rng.urange(1, stream.len() - 1)), "split2".into()));
         }
-        segs.push((gen::seg_straddle(rng), "straddle".into()));
+        if stream.len() <= 32 * 1024 {
+            segs.push((gen::seg_straddle(rng), "straddle".into()));
+        }
     }
     for (seg, name) in segs {
         for fl in all_flavours() {
@@ -1806,6 +1857,7 @@ pub fn run_greeting_index<C: Clone + serde::Serialize>(
                     vec![0]
                 },
                 flavour: fl,
+                tracing: tracing_on,
             };
             ctx.about_to_eval(&wrap(case.clone()));
             let ev = eval_greeting(&case);
